@@ -447,7 +447,9 @@ def int_type(ty):
     return (None, None)
 
 
-WHITELIST_PREFIX = ("ebr_impl::pointers::Tagged::", "ebr_impl::pointers::low_bits", "ebr_impl::pointers::with_tag",
+# (every free function of the pointer module is a pure bit helper; the methods of its atomic wrappers never reach here:
+#  the interpreter stops at the first atomic operation)
+WHITELIST_PREFIX = ("ebr_impl::pointers::Tagged::", "ebr_impl::pointers::",
                     "utils::State::", "utils::Modular::", "ebr_impl::epoch::Epoch::",
                     "<ebr_impl::pointers::Tagged<T> as std::convert::From", "<ebr_impl::epoch::Epoch as ")
 
@@ -579,6 +581,12 @@ class Interp:
                     v = v[e["field"]]
                 else:
                     raise Unknown("field of a non-aggregate")
+            elif isinstance(e, dict) and ("index" in e or "const_index" in e):
+                # a lookup in a small table with a decided index
+                ix = env.get(e["index"]) if "index" in e else W.const(e["const_index"], 64)
+                if not isinstance(v, list) or not isinstance(ix, W) or ix.cst is None or not (0 <= ix.cst < len(v)):
+                    raise Unknown("indexing with an index the domain cannot decide")
+                v = v[ix.cst]
             else:
                 raise Unknown("projection %s" % (e,))
         return v
@@ -613,6 +621,9 @@ class Interp:
             if pc is not None and "int" in pc:
                 w, s = int_type(c["ty"])
                 return W.const(int(pc["int"]), w or 64, s or False)
+            if pc is not None and "ints" in pc:
+                w, s = int_type(pc.get("elem_ty", "u64"))
+                return [W.const(int(x), w or 64, s or False) for x in pc["ints"]]
             cb = self.prog.bodies.get(c["uneval"])
             if cb is not None and cb.kind == "const" and not c.get("promoted"):
                 # a generic associated constant: interpret its initialiser under the current const bindings
